@@ -1415,11 +1415,79 @@ def search(ctx, budget_s):
     ctx.notes.append("search: %d further histories through the oracle, no unlisted violation" % n)
 
 
+def proof_stage_tied(ctx):
+    """core.proof_stage, made robust against checks of OTHER source trees running at the same time: every
+    check regenerates coq/Gen from its own REPO before it takes the build lock, so the file the shared build
+    saw may be somebody else's translation.  When coq/Gen/Containers.v after the build is not the translation
+    of THIS run's source, the generated file and everything that depends on it (Proofs/C11Gen*.v, Props/C11.v)
+    are compiled again in a private directory against this run's translation (fail closed)."""
+    import os
+    try:
+        from dv import gen_containers
+        want = gen_containers.generate(core.REPO)
+    except Exception:
+        want = None                       # proof_stage records the failed generation itself
+    path = os.path.join(core.COQ, "Gen", "Containers.v")
+    n_ob, n_notes = len(ctx.obligations), len(ctx.notes)
+    ok = core.proof_stage(ctx, ["Props/C11.vo"], gen_needed=("Containers",))
+    try:
+        have = open(path).read()
+    except OSError:
+        have = None
+    if want is None or have == want:
+        return ok
+    del ctx.obligations[n_ob:]
+    del ctx.notes[n_notes:]
+    ctx.notes.append("coq/Gen/Containers.v was overwritten by a concurrent check of another source tree: "
+                     "private build against this run's translation")
+    return private_gen_build(ctx, want)
+
+
+def private_gen_build(ctx, want):
+    import os
+    import shutil
+    import tempfile
+    hits = core.forbidden_scan(ctx.pid)
+    ctx.obligation("no Admitted/admit/Axiom/Parameter/Conjecture/unsafe flag in coq/", not hits)
+    os.makedirs("/var/tmp/dv-c11", exist_ok=True)
+    d = tempfile.mkdtemp(prefix="genbuild-", dir="/var/tmp/dv-c11")
+    try:
+        mine = lambda sub, fn: (sub == "Gen" and fn.startswith("Containers.")) \
+            or (sub == "Proofs" and fn.startswith("C11Gen")) or (sub == "Props" and fn.startswith("C11."))
+        for sub in ("Gen", "Model", "Proofs", "Props"):
+            os.makedirs(os.path.join(d, sub))
+            src = os.path.join(core.COQ, sub)
+            for fn in os.listdir(src):
+                if mine(sub, fn):
+                    if fn.endswith(".v") and not (sub == "Gen"):
+                        shutil.copy(os.path.join(src, fn), os.path.join(d, sub, fn))
+                    continue
+                os.symlink(os.path.join(src, fn), os.path.join(d, sub, fn))
+        with open(os.path.join(d, "Gen", "Containers.v"), "w") as f:
+            f.write(want)
+        order = ["Gen/Containers.v"] + ["Proofs/C11Gen%s.v" % c for c in "ABCDEFGH"] + ["Props/C11.v"]
+        good = True
+        for rel in order:
+            rc, out = core.sh("timeout 600 coqc -Q . DV -w none %s" % rel, cwd=d, timeout=630)
+            if rc != 0:
+                good = False
+                ctx.notes.append("coq build failed at %s (generated code no longer equals the model): %s"
+                                 % (core.failing_file(out), " ".join(out.split())[-400:]))
+                ctx.build_log = out[-6000:]
+                break
+        ctx.obligation("make Props/C11.vo (private build against this run's coq/Gen/Containers.v)", good)
+        return good and not hits
+    finally:
+        shutil.rmtree(d, ignore_errors=True)
+
+
 def run(tier, seed, replay=None):
     ctx = core.Ctx("C11", tier, seed)
     ctx.assumptions = [
         "model coq/Model/C11Model.v is a hand transcription of the taxon bookkeeping of TreeList / TreeArray / "
-        "CharacterMatrix / DataSet / Tree; tied to the source by this correspondence run only",
+        "CharacterMatrix / DataSet / Tree; tied to the source by this correspondence run and, for 33 methods, by the "
+        "translator py/dv/gen_containers.py -> coq/Gen/Containers.v whose output is proved equal to the model's step "
+        "(Props/C11.v gen_*); trusted there: the primitives of coq/Model/C11Prims.v and the parameter types in SPECS",
         "all namespaces are mutable; labels are ids into a finite pool and never re-assigned; str.lower is an "
         "uninterpreted function in the theorems",
         "matrix cells are not modelled: the oracle follows every sequence by its (unique) content across re-keying",
@@ -1433,7 +1501,7 @@ def run(tier, seed, replay=None):
         obs = observe(case)
         print("oracle:", oracle(case, obs))
         return 0
-    ok = core.proof_stage(ctx, ["Props/C11.vo"])
+    ok = proof_stage_tied(ctx)
     if not ok:
         core.broken_proof(ctx, search)
     check_witnesses(ctx)
